@@ -26,6 +26,20 @@ MUTANTS = [
     ('sread-len', 'C06', CORE, "    if len(data) != length:\n        raise StreamError(\"stream read less", "    if len(data) > length:\n        raise StreamError(\"stream read less"),
     ('stell-path', 'C18', CORE, "raise StreamError(\"stream.tell() failed\", path=path)", "raise StreamError(\"stream.tell() failed\")"),
     ('swrite-short', 'C06', CORE, "    if written != length:", "    if written > length:"),
+    ('padded-nopath', 'C18', CORE, "            raise PaddingError(\"length cannot be negative\", path=path)\n        position1 = stream_tell(stream, path)\n        obj = self.subcon._parsereport",
+     "            raise PaddingError(\"length cannot be negative\")\n        position1 = stream_tell(stream, path)\n        obj = self.subcon._parsereport"),
+    ('renamed-build-nopath', 'C18', CORE, "        path += \" -> %s\" % (self.name,)\n        return self.subcon._build(obj, stream, context, path)", "        return self.subcon._build(obj, stream, context, path)"),
+    ('array-freshpath', 'C18', CORE, "            e = self.subcon._parsereport(stream, context, path)\n            if not discard:\n                obj.append(e)\n        return obj",
+     "            e = self.subcon._parsereport(stream, context, \"(parsing)\")\n            if not discard:\n                obj.append(e)\n        return obj"),
+    ('bytes-sizeof-notry', 'C05', CORE, "        try:\n            return self.length(context) if callable(self.length) else self.length\n        except (KeyError, AttributeError):\n            raise SizeofError(\"cannot calculate size, key not found in context\", path=path)",
+     "        return self.length(context) if callable(self.length) else self.length"),
+    ('array-sizeof-keyerror-only', 'C05', CORE, "            count = evaluate(self.count, context)\n        except (KeyError, AttributeError):\n            raise SizeofError(\"cannot calculate size, key not found in context\", path=path)\n        return count * self.subcon._sizeof(context, path)",
+     "            count = evaluate(self.count, context)\n        except KeyError:\n            raise SizeofError(\"cannot calculate size, key not found in context\", path=path)\n        return count * self.subcon._sizeof(context, path)"),
+    ('flag-direct-read', 'C06', CORE, 'return stream_read(stream, 1, path) != b"\\x00"', 'return stream.read(1) != b"\\x00"'),
+    ('mapping-decode-except', 'C06', CORE, "            return self.decmapping[obj]\n        except (KeyError, TypeError):", "            return self.decmapping[obj]\n        except TypeError:"),
+    ('array-self-store', 'C17', CORE, "        discard = self.discard\n        obj = ListContainer()\n        for i in range(count):", "        discard = self.discard\n        self.lastcount = count\n        obj = ListContainer()\n        for i in range(count):"),
+    ('struct-parse-writes-parent', 'C17', CORE, "                    obj[sc.name] = subobj\n                    context[sc.name] = subobj\n            except StopFieldError:\n                break\n        return obj\n\n    def _build(self, obj, stream, context, path):\n        if obj is None:\n            obj = Container()",
+     "                    obj[sc.name] = subobj\n                    context[sc.name] = subobj\n                    context._[sc.name] = subobj\n            except StopFieldError:\n                break\n        return obj\n\n    def _build(self, obj, stream, context, path):\n        if obj is None:\n            obj = Container()"),
     ('sbib-order', 'C10', BIN, "for i in reversed(range(0,len(data),8)))", "for i in range(0,len(data),8))"),
     ('b2b-mod', 'C10', BIN, "if len(data) % 8 != 0:\n        raise ValueError(f\"data length {len(data)} must be", "if len(data) % 4 != 0:\n        raise ValueError(f\"data length {len(data)} must be"),
 ]
@@ -41,7 +55,7 @@ def run_one(m, verbose=False):
         if s.count(old) < 1:
             return ident, pid, 'PATTERN-NOT-FOUND', ''
         open(p, 'w').write(s.replace(old, new, 1))
-        env = dict(os.environ, PYVC_REPO=d)
+        env = dict(os.environ, PYVC_REPO=d, PYVC_OUT=d)
         t0 = time.time()
         r = subprocess.run([os.path.join(ROOT, 'check'), pid], env=env, capture_output=True, text=True)
         lines = [l for l in r.stdout.splitlines() if l.startswith(('VIOLATION', 'UNDECIDED', 'CHECKER'))]
